@@ -353,8 +353,18 @@ func (m *Manager) GetStats() (*Stats, error) {
 	var key uint32 = 0
 	var stats Stats
 
-	if err := m.stats.Lookup(&key, &stats); err != nil {
+	// The stats map is per-CPU: read one value per possible CPU and aggregate
+	var perCPU []Stats
+	if err := m.stats.Lookup(&key, &perCPU); err != nil {
 		return nil, err
+	}
+	for _, c := range perCPU {
+		stats.PacketsAllowed += c.PacketsAllowed
+		stats.PacketsDropped += c.PacketsDropped
+		stats.PacketsLogged += c.PacketsLogged
+		stats.IPv4Violations += c.IPv4Violations
+		stats.IPv6Violations += c.IPv6Violations
+		stats.UnknownMAC += c.UnknownMAC
 	}
 
 	return &stats, nil
